@@ -26,7 +26,7 @@ fn run_case(line: &str, out: &mut String) {
         "npyw" | "npyr" | "textw" | "read" | "fmt" | "parse" => bytesio::run(&toks, out),
         "classify" | "sites" | "smapfile" => create::run(&toks, out),
         "vcf2bcf" => convert::run(&toks, out),
-        "cnpy" | "cgeno" | "cwrite" => chunked::run(&toks, out),
+        "cnpy" | "cgeno" | "cwrite" | "genos" => chunked::run(&toks, out),
         other => out.push_str(&format!("UNKNOWN-OP {other}")),
     }
 }
